@@ -535,6 +535,19 @@ def _(nq):
     st._measure_quantum_vector_hf0 = orig
 
 
+@mutant('h11_hangs_on_one_subset', 'C11', None, 'harness robustness: measuring qubits (0,2) of 4 never returns; the quick check must end with HARNESS-ERROR (exit 2) within minutes, not hang')
+def _(nq):
+    st = nq.sim.state
+    orig = st.measure_quantum_vector
+
+    def measure_quantum_vector(q0, index, seed=None):
+        if tuple(nq.utils.hf_tuple_of_int(index)) == (0, 2) and q0.shape[0] == 16:
+            while True:
+                pass
+        return orig(q0, index, seed)
+    st.measure_quantum_vector = measure_quantum_vector
+
+
 def apply_from_env(nq):
     import os
     name = os.environ.get('NUMQI_VERIF_MUTANT')
